@@ -30,6 +30,12 @@ CLAIMED = {
         "Trusts cryptoxide's blake2b and the engine's CBOR reader/writer. Inputs rejected by the byte-preserving decoders are rejects (counted, kept below 35 %).",
         "DESIGN.md §5 C04",
     ),
+    "C08": (
+        "proptest-driven generation of (UTxO set, outputs, strategy, random schedule) with the library's thread RNG replaced by a harness-fed schedule (verif-hooks), soundness oracle over the builder's real input set",
+        "Generated-input and generated-schedule search: the random words consumed by the random-improve strategies are part of the generated, shrinkable input, so every selection / improvement-swap / fee-top-up outcome is reachable and replayable. On success the builder's actual inputs (read back from a built body, valued from the scenario's own UTxO map) must contain the earlier inputs, add only distinct offered UTxOs, and cover outputs + deposits + min_fee() in lovelace and every requested asset; largest-first must add a top-k set that is minimal, and may report insufficiency only if all offered UTxOs do not suffice. The swap-then-top-up class the property singles out is measured.",
+        "Trusts the hook's gen_range mapping (monotone floor(word*n/2^64)); amounts below 2^40; offered UTxOs form a set.",
+        "DESIGN.md §5 C08",
+    ),
     "C11": (
         "bounded-exhaustive header x length grid + proptest-driven typed / pointer / Byron / Bech32 generation against an engine-side reference address classifier",
         "Generated-input search: all 256 header bytes x payload lengths 0..80 (several payload fillings per cell) and generated typed addresses, pointer varints over the full u64 range, hand-assembled Byron CBOR (attributes, CRC, trailing bytes) and Bech32 strings are classified by the engine's own reference (nibble dispatch, varint reader, CRC-32, strict Byron parse) and compared with every stand-alone parser and with the same bytes embedded in outputs, bodies, pool params and withdrawals.",
